@@ -115,10 +115,14 @@ def _pool(rng, tier: str):
     envs = sorted(envspecs)
     queries = []
     fam = rng.random()
-    if fam < 0.35:
+    if fam < 0.42:
         queries.extend(H.query_family(rng, rng.choice((2, 3))))
-    elif fam < 0.45:
+    elif fam < 0.52:
         queries.extend(H.near_equal_family(rng, rng.choice((2, 3))))
+    if queries:
+        # a family is compiled on ONE environment (what is shared by accident is shared there)
+        one = rng.choice(envs)
+        envs = [one] * 3 + envs
     for _ in range(rng.choice((1, 2, 3)) if not queries else rng.choice((0, 1))):
         if rng.random() < 0.45:
             queries.append(rng.choice(SUSPEND_QUERIES))
